@@ -36,10 +36,19 @@ for d in sorted(x for x in glob.glob(os.path.join(ROOT, "seeded", "*")) if os.pa
         origin = "hand-made revert of fix commit %s (its hunks overlap with later fixes, so git apply -R does not work)" % commit
         confirmed = "patch applies to /repo HEAD and builds; the corresponding defect is described in DESIGN.md section 8"
     needs = [l.strip("-* ").strip() for l in notes.splitlines() if re.search(r"need|manifest|require", l, re.I)][:6]
+    if needs and all(len(x) < 40 for x in needs):
+        # the notes use a heading ("What it needs to manifest") followed by the text: take what follows it
+        ls = notes.splitlines()
+        for i, l in enumerate(ls):
+            if re.search(r"need|manifest|require", l, re.I):
+                needs = [x.strip("-* ").strip() for x in ls[i + 1:i + 12] if x.strip() and not x.startswith("#")][:6]
+                break
+    first_contact = {"S9-C15-2": "C15 MISSED (27s)", "S9-C16-2": "C16 MISSED (84s)", "S9-C18-1": "C18 MISSED (11s)", "S9-C13-1": "C13 MISSED (18s), C11 MISSED (25s)"}.get(name)
     meta = {
         "id": name, "breaks_property": prop, "origin": origin,
         "what_it_needs_to_manifest": needs or ["see NOTES.md"],
         "confirmed": confirmed,
+        **({"first_contact_before_strengthening": first_contact + " - see DESIGN.md section 10, round 9"} if first_contact else {}),
         "checks_run": [{"check": r["check"], "tier": "quick (generated search only, regression witnesses disabled)", "result": r["result"], "seconds": r["seconds"], "first_violation": r["first"]} for r in by.get(name, [])],
     }
     json.dump(meta, open(os.path.join(d, "meta.json"), "w"), indent=1)
